@@ -87,6 +87,8 @@ func specUe(req models.ChfConvergedChargingChargingDataRequest) *chf_context.Chf
 	return chf_context.SpecUeOf(req.SubscriberIdentifier)
 }
 
+func specUeNotifyUri(supi string) string { return chf_context.SpecUeOf(supi).NotifyUri }
+
 // specSameBooks: quota bookkeeping, record list and session table of the subscriber are what they were,
 // and nothing was sent to the rating and account-balance peers ("no effect")
 func specSameQuota(ue *chf_context.ChfUe, old map[int32]int64) bool {
@@ -144,3 +146,22 @@ func specSameQuota(ue *chf_context.ChfUe, old map[int32]int64) bool {
 //@   assert "chargingSessionId = ueId": [C09 C10] verif_held(&ue.CULock)
 //@   assert "ue.Records = append(": [C02 C10] ue.Cdr[chargingSessionId] == cdr && cdr != nil && cdr.ChargingFunctionRecord != nil
 //@   assert "return &responseBody, locationURI, nil": [C10 C12] locationURI == self.Url+"/nchf-convergedcharging/v3/chargingdata/"+chargingSessionId && ue.Cdr[chargingSessionId] == cdr
+
+// ghostNotifications: re-authorisation notifications handed to the HTTP client
+var ghostNotifications int
+
+// SendChargingNotification posts the notification with the generated OpenAPI client (outside the
+// verified subset): assumed to hand exactly one notification to the client and to touch no charging state.
+//@ func (*Processor).SendChargingNotification [C12]
+//@   trusted
+//@   ensures ghostNotifications == old(ghostNotifications)+1
+//@   modifies global(&ghostNotifications)
+
+// Recharge notification: the subscriber's bookkeeping is only touched under its lock (C09); exactly one
+// notification, naming the recharged rating group, goes to the URI the consumer registered (C12).
+//@ func (*Processor).NotifyRecharge [C09 C12]
+//@   entry
+//@   assert "ue.RatingType[rg] =": [C09] verif_held(&ue.CULock)
+//@   assert "notifyUri := ue.NotifyUri": [C09] verif_held(&ue.CULock)
+//@   assert "p.SendChargingNotification(": [C12] notifyUri == old(specUeNotifyUri(ueId)) && len(notifyRequest.ReauthorizationDetails) == 1 && notifyRequest.ReauthorizationDetails[0].RatingGroup == rg
+//@   ensures ghostNotifications == old(ghostNotifications) || ghostNotifications == old(ghostNotifications)+1
